@@ -80,7 +80,9 @@ def reps_collection(series, rng):
            "list_strided": [reps_1d(s, rng)["strided"] for s in series],
            # other element types holding the same numbers (halves are exact in float32)
            "list_f32": [np.array(s, dtype=np.float32) for s in series],
-           "list_array_f": [array.array("f", s) for s in series]}
+           "list_array_f": [array.array("f", s) for s in series],
+           # float64 in the other byte order (data read from a file written on another platform)
+           "list_byteswapped": [np.array(s, dtype=np.dtype(np.double).newbyteorder()) for s in series]}
     if all(float(v).is_integer() for s in series for v in s):
         out["list_int"] = [np.array(s, dtype=np.int64) for s in series]
         out["listsubclass_int"] = _ListSub(np.array(s, dtype=np.int64) for s in series)
